@@ -165,8 +165,50 @@ pub fn expansion_count(p: &str) -> Option<u64> {
 
 fn corrupt(rng: &mut Rng, doc: &mut Vec<u8>, other: &[u8], log: &mut Vec<String>) {
     let n = doc.len();
-    let kind = rng.below(21);
+    let kind = rng.below(22);
     let name = match kind {
+        21 => {
+            // an innermost brace group G becomes {G..G,G..G,z}: groups nested inside
+            // alternatives.  The csh expansion stays small (m * |G|^k + 1 strings) while
+            // the product over all groups (|G|^(m*k)) is astronomically larger - a
+            // matcher must cost the former, not the latter
+            let opens: Vec<usize> = (0..n).filter(|&i| doc[i] == b'{').collect();
+            let inner: Vec<(usize, usize)> = opens
+                .iter()
+                .filter_map(|&a| {
+                    let l = doc[a + 1..].iter().position(|&c| c == b'{' || c == b'}')?;
+                    if doc[a + 1 + l] == b'}' && l <= 24 {
+                        Some((a, a + 1 + l))
+                    } else {
+                        None
+                    }
+                })
+                .collect();
+            if !inner.is_empty() {
+                let (a, b) = *rng.pick(&inner);
+                let g: Vec<u8> = doc[a..=b].to_vec();
+                let alts = g.iter().filter(|&&c| c == b',').count() as u32 + 1;
+                let m = rng.urange(2, 3);
+                // keep the inherent expansion count of the new group at or below 400
+                let mut k = rng.urange(4, 7) as u32;
+                while k > 1 && (m as u64) * (alts as u64).pow(k) > 400 {
+                    k -= 1;
+                }
+                let mut rep: Vec<u8> = vec![b'{'];
+                for j in 0..m {
+                    if j > 0 {
+                        rep.push(b',');
+                    }
+                    rep.push(b'a' + j as u8);
+                    for _ in 0..k {
+                        rep.extend_from_slice(&g);
+                    }
+                }
+                rep.extend_from_slice(b",z}");
+                doc.splice(a..=b, rep);
+            }
+            "nest_brace_groups"
+        }
         20 => {
             // a digit run becomes a value at a boundary of the integer types, or one
             // that is large without being absurd (a size a careless reader would
@@ -1950,6 +1992,7 @@ fn count_corruption(ctx: &mut Ctx, name: &str) {
         "straddle_boundary" => "straddle_boundary",
         "odd_blank" => "odd_blank",
         "boundary_number" => "boundary_number",
+        "nest_brace_groups" => "nest_brace_groups",
         "empty_metadata_file" => "empty_metadata_file",
         "garbage_metadata_file" => "garbage_metadata_file",
         _ => "other_corruption",
